@@ -33,6 +33,7 @@ def parse_msg(err):
     return groups
 
 
+F = c07gen.fold          # Go's strings.ToLower (ASCII by rule, other characters as harness/docview reports them)
 ANSI = re.compile(r"\x1b\[[0-9;?]*[A-Za-z]")
 
 
@@ -73,11 +74,19 @@ def observe_state(mage, d, spec):
         for w in spec.get("nonwords", []):        # must not be runnable: run one at a time
             r3 = mage.run(d, flags + [w], env=env)
             o["runs"].append([w, "+".join(c[0] for c in projlib.calls(r3["out"]))])
+    if spec.get("gate_by_tags"):
+        # the verdict is about the files the go tool compiles under the same GOFLAGS: ask it
+        genv = mage.env(env)
+        for i in spec["imports"]:
+            for fn_, g in i.get("files", {}).items():
+                rc_, out_, _ = sh(["go", "list", "-f", "{{join .GoFiles \" \"}}", "./imp/" + i["pkg"]], cwd=d, env=genv, timeout=120)
+                if rc_ != 0 or ((fn_ in out_.split()) != (g["state"] == "on")):
+                    o["golist_disagrees"] = "%s: go list says %r, the generator assumed %s" % (fn_, out_.strip(), g["state"])
     defs = c07gen.all_defs(spec)
     tnames = [c07gen.runnable(defs[i], a) for i, a in c07gen.exposures(spec)]
     if "h" in cmds and tnames:
-        rh = mage.run(d, flags + ["-h", tnames[0].lower()], env=env)
-        o["help"] = {"word": tnames[0].lower(), "rc": rh["rc"], "class": projlib.stderr_class(clean(rh["err"])), "stderr": clean(rh["err"])[-400:]}
+        rh = mage.run(d, flags + ["-h", F(tnames[0])], env=env)
+        o["help"] = {"word": F(tnames[0]), "rc": rh["rc"], "class": projlib.stderr_class(clean(rh["err"])), "stderr": clean(rh["err"])[-400:]}
     if "run" in cmds and r["rc"] != 0 and spec["words"]:
         rr = mage.run(d, flags + spec["words"][:1], env=env)
         o["run1"] = {"word": spec["words"][0], "rc": rr["rc"], "class": projlib.stderr_class(clean(rr["err"])), "calls": [c[0] for c in projlib.calls(rr["out"])], "stderr": rr["err"][-400:]}
@@ -151,8 +160,8 @@ def observe_history(mage, states):
 def oracle(spec, o):
     """returns None or the clause that failed"""
     defs = c07gen.all_defs(spec)                      # id -> dict(path, recv, name, pkg)
-    names = [(c07gen.runnable(defs[i], a).lower(), ("def", i)) for i, a in c07gen.exposures(spec)]
-    names += [(a["key"].lower(), ("alias", a["key"])) for a in spec["aliases"]]
+    names = [(F(c07gen.runnable(defs[i], a)), ("def", i)) for i, a in c07gen.exposures(spec)]
+    names += [(F(a["key"]), ("alias", a["key"])) for a in spec["aliases"]]
     by = {}
     for n, what in names:
         by.setdefault(n, []).append(what)
@@ -172,14 +181,14 @@ def oracle(spec, o):
                 return "the message says %r has multiple definitions %s; the definitions with that name are %s" % (g["key"], g["ids"], ok_ids)
         elif g["kind"] == "alias":
             ok_ids = [ident[w[1]] for w in dup.get(g["key"], []) if w[0] == "def"]
-            ok_ids += [ident[a["ref"]] for a in spec["aliases"] if a["key"].lower() == g["key"]]
+            ok_ids += [ident[a["ref"]] for a in spec["aliases"] if F(a["key"]) == g["key"]]
             if g["key"] not in dup or not any(w[0] == "alias" for w in dup[g["key"]]) or not g["ids"] or any(i not in ok_ids for i in g["ids"]):
                 return "the message says alias %r duplicates %s; colliding with that name are %s" % (g["key"], g["ids"], ok_ids)
         else:
             # names only: some package must hold exactly these names under one lower-cased receiver:name
             pkgs = {}
             for i, d in defs.items():
-                pkgs.setdefault(d["pkg"], {}).setdefault(((d["recv"] + ":") if d["recv"] else "").lower() + d["name"].lower(), []).append(d["name"])
+                pkgs.setdefault(d["pkg"], {}).setdefault(F(((d["recv"] + ":") if d["recv"] else "") + d["name"]), []).append(d["name"])
             if not any(len(ns) > 1 and sorted(ns) == sorted(g["ids"]) for p in pkgs.values() for ns in p.values()):
                 return "the message lists %s as conflicting; no package defines exactly these under one name" % g["ids"]
         return None
@@ -198,12 +207,12 @@ def oracle(spec, o):
             return "no two runnable names are equal ignoring case, yet `mage -l` exited %d (%s): %s" % (o["rc"], o["class"], o["stderr"][-300:].strip())
         own = {}
         for i, a in c07gen.exposures(spec):
-            own[c07gen.runnable(defs[i], a).lower()] = i
+            own[F(c07gen.runnable(defs[i], a))] = i
         for a in spec["aliases"]:
-            own[a["key"].lower()] = a["ref"]
+            own[F(a["key"])] = a["ref"]
         for w, ran in o["runs"]:
-            if ran != own.get(w.lower(), ""):
-                return "`mage %s` ran %s, its own definition is %s" % (w, ran or "nothing", own.get(w.lower()) or "none")
+            if ran != own.get(F(w), ""):
+                return "`mage %s` ran %s, its own definition is %s" % (w, ran or "nothing", own.get(F(w)) or "none")
         if len(o["runs"]) != len(spec["words"]) + len(spec.get("nonwords", [])):
             return "not every word was run"
         return None
@@ -231,7 +240,7 @@ def oracle(spec, o):
     if any(g["kind"] == "case" for g in o["groups"]):
         pkgs = {}
         for i, d in defs.items():
-            pkgs.setdefault(d["pkg"], {}).setdefault(((d["recv"] + ":") if d["recv"] else "").lower() + d["name"].lower(), []).append(d["name"])
+            pkgs.setdefault(d["pkg"], {}).setdefault(F(((d["recv"] + ":") if d["recv"] else "") + d["name"]), []).append(d["name"])
         listed = sorted(sorted(g["ids"]) for g in o["groups"] if g["kind"] == "case")
         clash = {p: sorted(sorted(ns) for ns in ks.values() if len(ns) > 1) for p, ks in pkgs.items()}
         if not any(c == listed for c in clash.values() if c):
@@ -244,8 +253,8 @@ def oracle(spec, o):
 def oracle_commands(spec, o):
     """-h, a run and -compile in a state are judged like -l: refused with the diagnosis iff two names collide"""
     defs = c07gen.all_defs(spec)
-    names = [(c07gen.runnable(defs[i], a).lower(), ("def", i)) for i, a in c07gen.exposures(spec)]
-    names += [(a["key"].lower(), ("alias", a["key"])) for a in spec["aliases"]]
+    names = [(F(c07gen.runnable(defs[i], a)), ("def", i)) for i, a in c07gen.exposures(spec)]
+    names += [(F(a["key"]), ("alias", a["key"])) for a in spec["aliases"]]
     by = {}
     for n, what in names:
         by.setdefault(n, set()).add(what)
@@ -264,12 +273,12 @@ def oracle_commands(spec, o):
     if not collide and "compiled" in o:
         own = {}
         for i, a in c07gen.exposures(spec):
-            own[c07gen.runnable(defs[i], a).lower()] = i
+            own[F(c07gen.runnable(defs[i], a))] = i
         for a in spec["aliases"]:
-            own[a["key"].lower()] = a["ref"]
+            own[F(a["key"])] = a["ref"]
         for w, ran in o["compiled"]["runs"]:
-            if ran != own.get(w.lower(), ""):
-                return "the compiled binary ran %s for %s, its own definition is %s" % (ran or "nothing", w, own.get(w.lower()) or "none")
+            if ran != own.get(F(w), ""):
+                return "the compiled binary ran %s for %s, its own definition is %s" % (ran or "nothing", w, own.get(F(w)) or "none")
         if len(o["compiled"]["runs"]) != len(spec["words"]):
             return "the compiled binary did not run every word"
     return None
@@ -319,17 +328,36 @@ def run(ctx):
             st["name"] = "replay"
     else:
         hists = c07gen.generate(rng, reps=3 if ctx.quick else 40, soups=32 if ctx.quick else 700, hists=2 if ctx.quick else 25)
+    # Go's own ToLower for every non-ASCII character used (harness/docview, no mage code)
+    chars = sorted(set(c for h in hists for st in h for x in c07gen.strings_of(st) for c in x if not c.isascii()) |
+                   set(c for pr in c07gen.UNI_SAME + c07gen.UNI_NEAR for x in pr for c in x if not c.isascii()))
+    if chars:
+        docview = go_build_harness(ctx, "docview")
+        rc_, out_, err_ = sh([docview], input=(json.dumps({"names": chars}) + "\n").encode(), timeout=120)
+        if rc_ != 0:
+            raise BuildError("docview (names) failed: " + err_[-500:])
+        ans = json.loads(out_.splitlines()[0])
+        for n in (ans.get("names") or ans.get("infos") or ans if isinstance(ans, list) else ans.get("names", [])):
+            c07gen.GO_LOWER[n["name"]] = n["lower"]
+        for c in chars:
+            if c not in c07gen.GO_LOWER:
+                raise BuildError("docview did not answer for %r: %s" % (c, out_[:300]))
     ctx.log("projects:", len(hists), "states:", sum(len(h) for h in hists))
     hobs = pmap(lambda h: observe_history(mage, h), hists)
     specs = [st for h in hists for st in h]
     obs = [o for ho in hobs for o in ho]
     prefix = [h[:k + 1] for h in hists for k in range(len(h))]          # the history up to each state (the replay)
-    items, seen = [], set()
+    items, item_state, seen = [], [], set()
+    outside, disagree = 0, 0
     nontriv = 0
     matrix, outcome, msgs = {}, {"accepted": 0, "rejected": 0, "other": 0}, {"case": 0, "alias": 0, "multi": 0}
     words_run = 0
     modes = {}
-    for spec, o in zip(specs, obs):
+    for k, (spec, o) in enumerate(zip(specs, obs)):
+        if o.get("golist_disagrees"):
+            disagree += 1
+            ctx.notes.append("state skipped, " + o["golist_disagrees"])
+            continue
         modes[spec.get("mode", "plain")] = modes.get(spec.get("mode", "plain"), 0) + 1
         kind = "%s/%s" % (spec["kind"], "undecided" if spec["collide"] is None and spec["kind"] != "soup" else ("collision" if spec["collide"] else "near-miss"))
         matrix.setdefault(kind, {"n": 0, "rejected": 0})
@@ -346,7 +374,7 @@ def run(ctx):
         words_run += len(o["runs"])
         bad = oracle(spec, o) or oracle_commands(spec, o)
         if bad:
-            hist = prefix[len(items)]
+            hist = prefix[k]
             if spec.get("mode", "plain") != "plain":
                 bad = "[invoked with %s] %s" % (spec["mode"], bad)
             if len(hist) > 1:
@@ -357,13 +385,19 @@ def run(ctx):
             seen.add(h)
             if len(c07gen.exposures(spec)) + len(spec["aliases"]) >= 2 and (o["rc"] != 0 or o["runs"]):
                 nontriv += 1
-        items.append("{| c_pkg := %s; c_obs := %s |}" % (pkg_term(spec), obs_term(spec, o)))
+        if c07gen.inside_model(c07gen.strings_of(spec)):
+            items.append("{| c_pkg := %s; c_obs := %s |}" % (pkg_term(spec), obs_term(spec, o)))
+            item_state.append(k)
+        else:
+            outside += 1              # upper-case letters outside ASCII: judged by the oracle (Go's ToLower), not fed to the ASCII model
     header = "From Mage Require Import Base.Strs Model.Dupes Run.eval_C07.\n"
     ctx.log("observed; evaluating the model")
     per = max(20, (len(items) + NCPU - 1) // NCPU)
     mism = sorted(set(ctx.coq_eval_shards("cases_C07", header, items, per_shard=per)))
     alt = [(i, b) for i, b in mism if re.search(r"\(%d,\s*OAlt\)" % (i % per), b)]
     mism = [(i, b) for i, b in mism if (i, b) not in alt]
+    alt = [(item_state[i], b) for i, b in alt]
+    mism = [(item_state[i], b) for i, b in mism]
     if alt:
         ctx.notes.append("%d rejected case(s) named other (real) colliders than the model predicts, e.g. case %s: %s" % (
             len(alt), specs[alt[0][0]]["name"], obs[alt[0][0]]["groups"]))
@@ -388,8 +422,10 @@ def run(ctx):
     cov["messages_seen"] = msgs
     cov["names_run_in_accepted_projects"] = words_run
     cov["model_mismatches"] = len(mism)
+    cov["states_outside_the_ascii_model"] = outside
+    cov["states_skipped_go_list_disagrees"] = disagree
     cov["alternative_reports"] = len(alt)
-    cov["traces_validated_against_impl"] = len(specs) - len(mism)
+    cov["traces_validated_against_impl"] = len(items) - len(mism)
     for spec, o in list(zip(specs, obs))[:3]:
         ctx.sample({"kind": spec["kind"], "collide": spec["collide"], "locals": spec["locals"], "imports": spec["imports"], "aliases": spec["aliases"],
                     "rc": o["rc"], "groups": o["groups"], "runs": o["runs"][:6]})
